@@ -30,6 +30,7 @@ type Run struct {
 	nOps    int
 	Result  Result
 	seen    map[string]struct{}
+	recent  []string
 	samples int
 }
 
@@ -196,3 +197,15 @@ func sortedKeys(m map[string]int) []string {
 }
 
 func itoa(i int) string { return fmt.Sprint(i) }
+
+// Remember the input about to be delivered, so that a crash of the process can be attributed.
+func (r *Run) lastInput(s string) {
+	r.mu.Lock()
+	r.recent = append(r.recent, s)
+	if len(r.recent) > 8 {
+		r.recent = r.recent[len(r.recent)-8:]
+	}
+	out := strings.Join(r.recent, "\n")
+	r.mu.Unlock()
+	os.WriteFile(filepath.Join(r.OutDir, "last-input.txt"), []byte(out), 0o644)
+}
